@@ -285,7 +285,10 @@ def _init_worker():
     tdir = os.path.join(extract.CACHE, 'target-m%d' % (pid % 1000))
     if not os.path.exists(tdir) and os.path.exists(os.path.join(base, 'debug')):
         os.makedirs(tdir, exist_ok=True)
-        shutil.copytree(os.path.join(base, 'debug'), os.path.join(tdir, 'debug'), symlinks=True, ignore=shutil.ignore_patterns('incremental', 'examples', '*.d'))
+        try:
+            shutil.copytree(os.path.join(base, 'debug'), os.path.join(tdir, 'debug'), symlinks=True, ignore=shutil.ignore_patterns('incremental', 'examples', '*.d', 'desync-*', 'libdesync-*'))
+        except shutil.Error:
+            pass
     d, tree = make_tree()
     _state.update(tdir=tdir, d=d, tree=tree, pristine={})
 
